@@ -380,6 +380,8 @@ type minInst struct {
 	writerFail int
 	isolated   int // 0 no; 1 FuncEvaluations only; 2 MajorIterations only; 3 Runtime only
 	costly     bool
+	prime      int // the method value is reused: a first Minimize call, stopped by 1 func / 2 grad / 3 hess limit or 4 Problem.Status, precedes the run under test
+	primeN     int
 }
 
 func drawMinimize(t *simrt.Tape) *minInst {
@@ -498,6 +500,11 @@ func drawMinimize(t *simrt.Tape) *minInst {
 	}
 	if in.method == mStub {
 		in.stubCfg = drawStub(t)
+	} else if t.Choose(simrt.KWorkload, 4) == 3 {
+		// method values are reusable: Init must reset whatever an earlier,
+		// possibly interrupted, run left behind
+		in.prime = 1 + t.Choose(simrt.KWorkload, 4)
+		in.primeN = 1 + t.Choose(simrt.KWorkload, 9)
 	}
 	return in
 }
@@ -524,6 +531,9 @@ func (in *minInst) describe(m map[string]interface{}) {
 	}
 	if in.hasStatus {
 		m["problem_status"] = fmt.Sprintf("at=%d kind=%d", in.statusAt, in.statusKind)
+	}
+	if in.prime != 0 {
+		m["method_value_reused_after"] = fmt.Sprintf("a run stopped by %s=%d", []string{"", "FuncEvaluations", "GradEvaluations", "HessEvaluations", "Problem.Status at call"}[in.prime], in.primeN)
 	}
 	if in.isolated != 0 {
 		m["isolated_cause"] = []string{"", "FuncEvaluations", "MajorIterations", "Runtime"}[in.isolated]
@@ -703,7 +713,51 @@ func (in *minInst) build() *minRun {
 
 func simrtChooseOutside(seed uint64) uint64 { return seed >> 7 }
 
+// primeMethod runs a first, interrupted Minimize with the method value that
+// the run under test will reuse. Its callbacks are not logged.
+func (r *minRun) primeMethod() {
+	in := r.in
+	o := in.obj
+	p := optimize.Problem{Func: func(x []float64) float64 { return o.F(x) }}
+	if r.prob.Grad != nil {
+		p.Grad = func(g, x []float64) { o.Grad(g, x) }
+	}
+	if r.prob.Hess != nil {
+		p.Hess = func(h *mat.SymDense, x []float64) { o.hess(h, x) }
+	}
+	set := optimize.Settings{Concurrent: in.conc, FuncEvaluations: 200, Converger: optimize.NeverTerminate{}}
+	switch in.prime {
+	case 1:
+		set.FuncEvaluations = in.primeN
+	case 2:
+		if p.Grad != nil {
+			set.GradEvaluations = in.primeN
+		}
+	case 3:
+		if p.Hess != nil {
+			set.HessEvaluations = in.primeN
+		}
+	case 4:
+		k := 0
+		p.Status = func() (optimize.Status, error) {
+			k++
+			if k > in.primeN {
+				return optimize.Success, nil
+			}
+			return optimize.NotTerminated, nil
+		}
+	}
+	x := make([]float64, in.dim)
+	for i := range x {
+		x[i] = in.initX[i] + 0.5
+	}
+	optimize.Minimize(p, x, &set, r.method)
+}
+
 func (r *minRun) run() {
+	if r.in.prime != 0 {
+		r.primeMethod()
+	}
 	r.t0 = simrt.Elapsed()
 	x := append([]float64(nil), r.in.initX...)
 	r.res, r.err = optimize.Minimize(r.prob, x, &r.set, r.method)
@@ -735,7 +789,7 @@ func runMinimize(t *simrt.Tape, rc *RunCtx) *Violation {
 	in.describe(rc.Instance)
 	prop := activeProp
 	c19 := prop == "C19"
-	rc.declare("limit_overshoot_by_concurrency", "result_nil_early_error", "recorder_error_injected", "status_callback_terminated_run",
+	rc.declare("method_value_reused", "limit_overshoot_by_concurrency", "result_nil_early_error", "recorder_error_injected", "status_callback_terminated_run",
 		"runtime_limit_hit", "nan_or_inf_objective_hit", "method_done_with_tasks_in_flight", "trailing_major_iterations", "init_values_used", "isolated_cause_run",
 		"concurrent_evaluations_overlapped", "tiny_limit_below_one_generation")
 
@@ -768,6 +822,9 @@ func runMinimize(t *simrt.Tape, rc *RunCtx) *Violation {
 		rc.hist("linesearcher=" + []string{"default", "Backtracking", "Bisection", "MoreThuente"}[in.ls])
 	}
 	rc.hist(fmt.Sprintf("concurrent=%d", in.conc))
+	if in.prime != 0 {
+		rc.probe("method_value_reused", 1)
+	}
 	if res != nil {
 		rc.hist("status=" + res.Status.String())
 	}
@@ -793,6 +850,28 @@ func runMinimize(t *simrt.Tape, rc *RunCtx) *Violation {
 	}
 	if log.maxIn > 1 {
 		rc.probe("concurrent_evaluations_overlapped", 1)
+	}
+	// callback faults that actually fired in this run
+	if r.rec != nil {
+		if r.rec.initErr {
+			rc.fault("callback.recorder_init_error", 1)
+		}
+		if r.rec.failed > 0 {
+			rc.fault("callback.recorder_record_error", 1)
+		}
+	}
+	if r.wr != nil && r.wr.failed {
+		rc.fault("callback.printer_writer_error", 1)
+	}
+	if in.hasStatus && in.statusAt > 0 && log.nStatus >= in.statusAt {
+		if in.statusKind == 1 {
+			rc.fault("callback.problem_status_terminal", 1)
+		} else {
+			rc.fault("callback.problem_status_error", 1)
+		}
+	}
+	if !log.allFinite() {
+		rc.fault("callback.objective_returned_nan_or_inf", 1)
 	}
 	if in.initVals > 0 {
 		rc.probe("init_values_used", 1)
